@@ -119,7 +119,10 @@ func TestC09Logs(t *testing.T) {
 			return
 		}
 		x := oneOf(rt, keys(map[string]bool(w.Pruned)), "pruned.id")
-		lines, _ := LogLines(ReadLog(w.Root))
+		lines, rest := LogLines(ReadLog(w.Root))
+		if strings.TrimSpace(rest) != "" {
+			lines = append(lines, rest)
+		}
 		var mine, others []string
 		for _, l := range lines {
 			var ev LogEvent
